@@ -1827,7 +1827,14 @@ impl<K: AsRef<Key>> ServerError<K> {
         Octs: Octets + ?Sized,
         Target: Composer,
     {
-        let builder = builder.start_answer(msg, Rcode::NOTAUTH)?;
+        // TSIG errors are reported as NOTAUTH plus the TSIG error code. A
+        // request that is malformed is answered with a regular FORMERR.
+        let rcode = if self.error() == TsigRcode::FORMERR {
+            Rcode::FORMERR
+        } else {
+            Rcode::NOTAUTH
+        };
+        let builder = builder.start_answer(msg, rcode)?;
         let mut builder = builder.additional();
         match self.0 {
             ServerErrorInner::Unsigned { error } => {
